@@ -255,8 +255,10 @@ StringDictionaryRPHTFC::StringDictionaryRPHTFC(IteratorDictString *it,
           codeSubstr = codeSubstr >> (ptrSubstr - TABLEBITSO);
           ptrSubstr = TABLEBITSO;
         } else {
-          if ((bucket == buckets) && (elements % bucketsize == 0)) {
-            // The last element is directly padded
+          if ((ptrB >= ptrE) ||
+              ((bucket == buckets) && (elements % bucketsize == 0))) {
+            // No internal string follows the header (or it is the last
+            // element): it is directly padded
             codeSubstr = (codeSubstr << (TABLEBITSO - ptrSubstr));
             ptrSubstr = TABLEBITSO;
           } else {
